@@ -6,6 +6,7 @@ import JivaVerif.Model.Cleaner
 import JivaVerif.Model.Controller
 import JivaVerif.Properties.C01
 import JivaVerif.Properties.C06
+import JivaVerif.Properties.C07
 import JivaVerif.Properties.C10
 import JivaVerif.Properties.C11
 import JivaVerif.Properties.C16
